@@ -9,24 +9,25 @@ prop(
     stages=[
         dict(run="^TestPropSelect$",
              quick=dict(checks=32000, shards=16, timeout=600),
-             thorough=dict(checks=1600000, shards=16, timeout=7200)),
+             thorough=dict(checks=800000, shards=16, timeout=7200)),
     ],
     rule="1-4 rule{} blocks, each with 0-3 match and 0-3 ignore sub-blocks of 1-4 conditions over all nine kinds (path, name, kind, "
          "label, annotation, for, keep_firing_for, command, state; regexps from pools with partial-match traps, alternations, inner "
          "anchors, flags) and one marker check with a distinct String() per block, x 1-2 rule files (1-2 groups, group labels half of "
-         "the time, 1-3 rules over the small gen vocabulary) ; every case is evaluated under all of {lint, ci, watch} x {noop, added, "
+         "the time, 1-3 rules over the small gen vocabulary) x 2-4 drawn (command, entry state) pairs from {lint, ci, watch} x {noop, added, "
          "modified, moved}; the marker checks returned by config.GetChecksForEntry are compared with a reference evaluator of the "
          "documented semantics that works from the generator's own model of the rules. Non-trivial: some rule block has a match and "
          "an ignore sub-block with >= 2 conditions each, and over the case at least one (rule, block, command, state) is selected "
          "and one rejected.",
     level_text="Generated-input search (rapid, fixed seeds) against an independent reference evaluator of the documented "
-               "match/ignore semantics. Says the selection agreed on N generated (configuration, rule files) cases x 12 "
-               "(command, state) combinations each; no proof of absence.",
+               "match/ignore semantics. Says the selection agreed on N generated (configuration, rule files, 2-4 (command, state) pairs) "
+               "cases, for every rule x rule block of the case; no proof of absence.",
     level_note="Only syntactically valid regexps and durations are generated (validation is C18's subject); removed-state entries are "
                "excluded (no configurable check runs on them). A rule block without match sub-blocks is read as one empty match "
                "sub-block carrying the command's default state (the documentation's own example for `state = [\"any\"]` says so); "
                "ignore sub-blocks get no default state ('all conditions defined on ignore'). ignore sub-blocks whose only "
-               "condition is keep_firing_for are not generated: pint rejects them at load time.",
+               "condition is keep_firing_for are not generated: pint rejects them at load time. Only the marker checks' names are "
+               "enabled (as with --enabled), which spares pint the evaluation of every rule block for each built-in check.",
     assumptions=["Go's regexp package and prometheus/common ParseDuration are trusted as the meaning of 'regexp' and 'duration'",
                  "the harness' HCL renderer is checked against pint's decoded Match structs on every case (self-check, not oracle)"],
 )
